@@ -21,6 +21,7 @@ import (
 	"encoding/json"
 	"fmt"
 	"os"
+	"runtime"
 	"strconv"
 	"strings"
 	"sync/atomic"
@@ -73,6 +74,11 @@ func startRunWatchdog(def int) {
 			time.Sleep(time.Second)
 			if st := runStarted.Load(); st != 0 && time.Now().Unix()-st > limit {
 				fmt.Fprintf(os.Stderr, "WATCHDOG: the run of seed %d exceeded %d s of real time\n", runSeed.Load(), limit)
+				// where is everybody? (the runner decides from the run goroutine's
+				// stack whether the system under test is stuck or the harness is busy)
+				buf := make([]byte, 8<<20)
+				n := runtime.Stack(buf, true)
+				fmt.Fprintf(os.Stderr, "WATCHDOG-STACKS-BEGIN\n%s\nWATCHDOG-STACKS-END\n", buf[:n])
 				os.Exit(3)
 			}
 		}
@@ -200,6 +206,11 @@ func TestWorker(t *testing.T) {
 		env := sim.NewEnv(id, seed)
 		env.Verbose = verbose
 		env.Index = i
+		env.BeforeCleanup = func(r sim.Record) {
+			if r.Violation != nil {
+				emit("PRE " + r.JSON())
+			}
+		}
 		rec := runOnce(t, p, env)
 		if rec.Violation != nil && minimise && !minimised[rec.Violation.Invariant+"|"+rec.Violation.Sig] && !strings.Contains(","+os.Getenv("VERIF_NOMIN_INVARIANTS")+",", ","+rec.Violation.Invariant+",") {
 			inv := rec.Violation.Invariant
